@@ -65,6 +65,28 @@ def splitLF : Text → Text → List Text × Text
 
 def lines (s : Text) : List Text × Text := splitLF [] s
 
+/-- linear-time version of `splitLF` for the compiled driver (the accumulator is kept reversed); proved equal below and
+    substituted by the compiler only (`csimp`) — theorems are about `splitLF`. -/
+def splitLFFast : Text → Text → List Text × Text
+  | racc, [] => ([], racc.reverse)
+  | racc, c :: cs => if c = 10 then
+      let (ls, r) := splitLFFast [] cs
+      (racc.reverse :: ls, r)
+    else splitLFFast (c :: racc) cs
+
+theorem splitLFFast_eq (racc s : Text) : splitLFFast racc s = splitLF racc.reverse s := by
+  induction s generalizing racc with
+  | nil => simp [splitLFFast, splitLF]
+  | cons c cs ih =>
+    by_cases h : c = 10
+    · simp [splitLFFast, splitLF, h, ih]
+    · simp [splitLFFast, splitLF, h, ih]
+
+def linesFast (s : Text) : List Text × Text := splitLFFast [] s
+
+@[csimp] theorem lines_eq_fast : @lines = @linesFast := by
+  funext s; simp [lines, linesFast, splitLFFast_eq]
+
 /-- stdio framing of a message already rendered as one JSON text: the text, then LF
     (`stdio_server.go writeResponse`: `Write(data)`, `Write("\n")`; one chunk after the repair). -/
 def stdioChunks (twoWrites : Bool) (msg : Text) : List Text :=
@@ -77,6 +99,27 @@ def splitOnLF : Text → Text → List Text
   | acc, [] => [acc]
   | acc, c :: cs => if c = 10 then acc :: splitOnLF [] cs else splitOnLF (acc ++ [c]) cs
 
+/-- linear-time version of `splitOnLF` for the compiled driver; proved equal, substituted by the compiler only. -/
+def splitOnLFFast : Text → Text → List Text
+  | racc, [] => [racc.reverse]
+  | racc, c :: cs => if c = 10 then racc.reverse :: splitOnLFFast [] cs else splitOnLFFast (c :: racc) cs
+
+theorem splitOnLFFast_eq (racc s : Text) : splitOnLFFast racc s = splitOnLF racc.reverse s := by
+  induction s generalizing racc with
+  | nil => simp [splitOnLFFast, splitOnLF]
+  | cons c cs ih =>
+    by_cases h : c = 10
+    · simp [splitOnLFFast, splitOnLF, h, ih]
+    · simp [splitOnLFFast, splitOnLF, h, ih]
+
+/-- `splitOnLF` as the event writer calls it (empty accumulator) -/
+def splitLinesLF (s : Text) : List Text := splitOnLF [] s
+
+def splitLinesLFFast (s : Text) : List Text := splitOnLFFast [] s
+
+@[csimp] theorem splitLinesLF_eq_fast : @splitLinesLF = @splitLinesLFFast := by
+  funext s; simp [splitLinesLF, splitLinesLFFast, splitOnLFFast_eq]
+
 /-- Go `strings.TrimSuffix(s, "\n")`. -/
 def trimSuffixLF (s : Text) : Text :=
   match s.reverse with
@@ -86,7 +129,7 @@ def trimSuffixLF (s : Text) : Text :=
 /-- `sseutil.Writer.WriteEvent`: one `Fprintf` for the id line, one per data line, one for the blank line. -/
 def sseEventChunks (id data : Text) : List Text :=
   [t!"id: " ++ id ++ [10]] ++
-  (if data.isEmpty then [] else (splitOnLF [] (trimSuffixLF data)).map (fun l => t!"data: " ++ l ++ [10])) ++
+  (if data.isEmpty then [] else (splitLinesLF (trimSuffixLF data)).map (fun l => t!"data: " ++ l ++ [10])) ++
   [[10]]
 
 /-- Go `strings.ReplaceAll(s, "\n", "\ndata: ")`. -/
